@@ -21,7 +21,9 @@ RULE = ("'variants': every entry point on generated cases; the n_jobs=1 result i
         "relabelled indexes, added/reordered columns, a repeated call, and the same call in two "
         "helper processes with other PYTHONHASHSEEDs; _id must be 0..n-1. Non-trivial = "
         "non-empty result for which some n_jobs gives >=2 contributing chunks and >=1 empty "
-        "chunk. 'grid': dense rows x n_jobs grid on synthetic tables per entry point. "
+        "chunk. 'grid': dense rows x n_jobs grid on synthetic tables per entry point. 'e1perm': "
+        "E1 size-sweep tables joined in original / reversed row order and chunked. 'pps-perm': "
+        "full Prefix/Position/SuffixFilter.filter_tables results under row permutations. "
         "distinct = case digests")
 ASSUMPTIONS = ["joblib's threading backend runs the same split/concat code as process workers "
                "(results are collected in submission order); a sample runs on real loky workers",
